@@ -490,7 +490,13 @@ class P_cif(StructureParser):
         # the displacement type decides how the U and B values of its row are
         # stored, so it is applied before them wherever its column stands
         first = (P_cif._tr_atom_site_adp_type,)
-        setter_order = sorted(range(len(prop_setters)), key=lambda i: prop_setters[i] not in first)
+        # Cartesian coordinates are converted through the fractional ones;
+        # they are applied after them so that a row giving both does not
+        # depend on how the two sets of columns are interleaved
+        last = (P_cif._tr_atom_site_cartn_x, P_cif._tr_atom_site_cartn_y, P_cif._tr_atom_site_cartn_z)
+        setter_order = sorted(
+            range(len(prop_setters)), key=lambda i: (prop_setters[i] not in first) + (prop_setters[i] in last)
+        )
         # index of the _atom_site_label item for the labelindex dictionary
         ilb = atom_site_loop.keys().index("_atom_site_label")
         # loop through the values and pass them to the setters
